@@ -9,6 +9,7 @@ import (
 	"encoding/json"
 	"fmt"
 	"os"
+	"runtime/debug"
 
 	"verifharness/common"
 )
@@ -23,6 +24,8 @@ func main() {
 		os.Stderr = dn
 	}
 	if common.IsWorker() {
+		// unbounded recursion in the code under test should end quickly, not after filling 1 GB of stack
+		debug.SetMaxStack(96 << 20)
 		common.ServeWorker(docWorker)
 		return
 	}
